@@ -714,6 +714,98 @@ def rule_integer_quotient(ctx, R="C16.9"):
         ctx.check(R, "%s/on-canonical-representatives-in-order" % name, ok, det, site(MA, fn))
 
 
+def eval_complement(ctx, R, fn):
+    """complement_256 by evaluation on bit vectors of 0, 1, 255, 256, 257 and 300 bits (the bit representation of the
+    operand is handed in as a vector): the number spelled must have exactly 256 bits, bit i being the complement of
+    the operand's bit i (0 beyond its length), and the result is that number reduced by the field.  Returns True when
+    decided."""
+    import passeval
+    from finfun import S, Unsupported
+    from passeval import O, Panic, Sink
+
+    try:
+        w = passeval.PassWorld([MA], MA)
+    except Exception:  # noqa: BLE001
+        return False
+    w.lenient_opaque = True
+    bad = []
+    n = 0
+    try:
+        for length in (0, 1, 255, 256, 257, 300):
+            bits = [(i * 7 + length) % 3 == 0 and 1 or 0 for i in range(length)]
+            vec = Sink()
+            vec.items = list(bits)
+            sign, field, cp = O("sign"), O("field"), O("number-spelled-by-the-bits")
+            spelled = []
+
+            def bigint(name, args, spelled=spelled, cp=cp):
+                if name == "from_radix_le" and len(args) == 3:
+                    b_ = args[1]
+                    spelled.append((args[0], list(b_.items) if isinstance(b_, Sink) else (list(b_[1]) if isinstance(b_, tuple) and b_ and b_[0] == "L" else None), args[2]))
+                    return S("Some", cp)
+                if name == "from" and len(args) == 1:
+                    return args[0]
+                return ("K", "BigInt::" + name, tuple(args))
+
+            w.opaque = (("BigInt::", bigint), ("u8::", lambda name, args: (1 if args[0] else 0) if name == "from" and len(args) == 1 and isinstance(args[0], bool) else ("K", "u8::" + name, tuple(args))))
+            w.stubs = {"bit_representation": lambda a, sign=sign, vec=vec: ("T", (sign, vec)), "modulus": lambda a: ("K", "modulus", tuple(a))}
+            res = w.call_fn(fn, [O("elem"), field])
+            n += 1
+            want = [1 - (bits[i] if i < len(bits) else 0) for i in range(256)]
+            if len(spelled) != 1 or spelled[0][0] is not sign or spelled[0][2] != 2:
+                bad.append("%d-bit operand: the number is built %d time(s) / not from the operand's sign in base 2" % (length, len(spelled)))
+            elif spelled[0][1] != want:
+                got = spelled[0][1]
+                bad.append("%d-bit operand: %s" % (length, "the vector has %d bits, not 256" % len(got) if got is None or len(got) != 256 else "bit %d is not the complement of the operand's bit" % [i for i in range(256) if got[i] != want[i]][0]))
+            if not (isinstance(res, tuple) and res[0] == "K" and res[1] == "modulus" and res[2][0] is cp and res[2][1] is field):
+                bad.append("%d-bit operand: the result is %r, not the number reduced by the field" % (length, res))
+    except Unsupported as u:
+        w.stubs = {}
+        ctx.note("complement_256 is outside the evaluator's subset (%s): shape obligations apply" % u)
+        return False
+    except Panic as p_:
+        bad.append("panics (%s)" % p_)
+    w.stubs = {}
+    ctx.floor(R, "operand widths evaluated (complement)", n, 6)
+    ctx.check(R, "complement_256/over-exactly-256-bits", not bad, "; ".join(bad[:3]) or "for operands of 0 .. 300 bits: 256 bits, each the complement of the operand's (0 beyond its length), spelled in base 2 with the operand's sign and reduced by the field", site(MA, fn))
+    return True
+
+
+def rule_complement(ctx, R="C16.10"):
+    ctx.rule(R, "the bitwise complement is taken over exactly 256 bits of the operand's binary representation: the bit vector is cut to 256 and padded to 256, every bit is flipped, and the number they spell is reduced modulo the field")
+    fns = module_fns()
+    fn = fns.get("complement_256")
+    if fn is None:
+        return ctx.missing(R, "complement_256")
+    if eval_complement(ctx, R, fn):
+        return
+    t = render(fn["body"]).replace(" ", "")
+    le = let_env(fn["body"])
+    # the vector of bits: bound (in a tuple) from bit_representation(elem)
+    vec = None
+    for n in walk(fn["body"]):
+        if n["k"] == "Local" and n.get("init") is not None and n["pat"]["k"] == "PTuple" and len(n["pat"]["elems"]) == 2 and render(strip(n["init"])).replace(" ", "").startswith("bit_representation("):
+            e1 = n["pat"]["elems"][1]
+            if e1["k"] == "PIdent":
+                vec = e1["name"]
+    if vec is None:
+        return ctx.missing(R, "complement_256/bit-vector", "cannot find the bit vector taken from bit_representation(..)")
+    v = re.escape(vec)
+    cut = re.search(r"while\(?%s\.len\(\)>256\)?\{%s\.pop\(\);?\}" % (v, v), t) is not None or ("%s.truncate(256)" % vec) in t
+    pad = re.search(r"for\w+in%s\.len\(\)\.\.256\{%s\.push\(0\);?\}" % (v, v), t) is not None or ("%s.resize(256,0)" % vec) in t or re.search(r"while\(?%s\.len\(\)<256\)?\{%s\.push\(0\);?\}" % (v, v), t) is not None
+    flip = re.search(r"\*(\w+)=u8::from\(\(?\*\1==0\)?\)", t) is not None or re.search(r"\*(\w+)=1-\*\1", t) is not None or re.search(r"\*(\w+)\^=1", t) is not None
+    flip_all = flip and (re.search(r"for\w+in&mut%s\{" % v, t) is not None or ("%s.iter_mut()" % vec) in t)
+    from astlib import result_expr
+
+    rx = result_expr(fn)
+    res_t = render(strip(rx)).replace(" ", "") if rx is not None else ""
+    spelled = re.search(r"BigInt::from_radix_le\(\w+,&?%s,2\)" % v, t) is not None
+    reduced = res_t.startswith("modulus(") and res_t.endswith(",field)")
+    ctx.check(R, "complement_256/over-exactly-256-bits", cut and pad, "cut to 256 bits: %s, padded to 256 bits: %s" % (cut, pad), site(MA, fn))
+    ctx.check(R, "complement_256/every-bit-flipped", flip_all, "each of the 256 bits is replaced by its complement: %s" % flip_all, site(MA, fn))
+    ctx.check(R, "complement_256/number-spelled-by-the-bits-reduced", spelled and reduced, "result `%s`; built from the flipped bits: %s" % (res_t[:60], spelled), site(MA, fn))
+
+
 def run(ctx):
     rule_shift_recursion(ctx)
     rule_divisors(ctx)
@@ -721,6 +813,7 @@ def run(ctx):
     rule_canonical(ctx)
     rule_comparisons(ctx)
     rule_integer_quotient(ctx)
+    rule_complement(ctx)
     import c06
     import c11
 
